@@ -27,12 +27,13 @@ Next ==
           /\ IF cls \in {"LRBF", "LSEM"} THEN hist[1].a.mode = "S" /\ ~("chol" \in DOMAIN hist[1].a) /\ ANewFeat(cls, dd \div 10, dx1, dk, s)
              ELSE \E da \in Das :
                     /\ Sq(cls) <=> ("chol" \in DOMAIN hist[1].a)
-                    /\ ANewHet(cls, dd \div 10, da, dk, dx1, IF Sq(cls) THEN hist[1].a.ci + 3 * s ELSE s)
+                    /\ \E zw \in (IF cls \in {"HetExp", "HetCosh"} /\ da = dd \div 10 THEN BOOLEAN ELSE {FALSE}) :
+                          ANewHetZ(cls, dd \div 10, da, dk, dx1, IF Sq(cls) THEN hist[1].a.ci + 3 * s ELSE s, zw)
     \/ n = 2 /\ ~JointQ /\
                 (\/ (IsFeat(heap[2]) /\ \E N \in {1, 2} : AFeatCondOnX(2, N, 0))
                  \/ (IsFeat(heap[2]) /\ \E via \in {"callable", "y"} : AFeatIntLogCondY(2, 1, 1, via))
                  \/ (IsHet(heap[2]) /\ \E N \in {1, 3} : AHetCondOnX(2, N, 0))
-                 \/ (heap[2].cls = "HetStep" /\ HDa(heap[2]) = HDy(heap[2]) /\ \E s \in {0, 1} : AHetIntLogCondY(2, 1, s))
+                 \/ (IsHet(heap[2]) /\ HDa(heap[2]) = HDy(heap[2]) /\ NumR(heap[1]) = 1 /\ \E s \in {0, 1} : AHetIntLogCondY(2, 1, s))
                  \/ \E k \in {"marginal", "joint", "conditional"} :
                        IF IsFeat(heap[2]) THEN AFeatTransform(k, 2, 1) ELSE AHetTransform(k, 2, 1))
 
